@@ -23,6 +23,117 @@ import (
 
 func init() { drivers["window"] = runWindow }
 
+// crossWireReplay: a request routed to route A whose dial is overtaken by the registration of a more
+// specific route B gets a connection to B's backend pooled under A's key; the next request for A
+// (which B does not match) is then served by B's backend.  Gate in front of DialContext.
+func crossWireReplay() (string, string, error) {
+	rp := vhost.NewHTTPReverseProxy(vhost.HTTPReverseProxyOptions{ResponseHeaderTimeoutS: 20}, vhost.NewRouters())
+	front, err := net.Listen("tcp", "127.0.6.6:0")
+	if err != nil {
+		return "", "", err
+	}
+	srv := &http.Server{Handler: rp}
+	go func() { _ = srv.Serve(front) }()
+	defer srv.Close()
+	var dials int64
+	mk := func(label string) (vhost.CreateConnFunc, func(), error) {
+		bl, err := net.Listen("tcp", "127.0.6.7:0")
+		if err != nil {
+			return nil, nil, err
+		}
+		bs := &http.Server{Handler: http.HandlerFunc(func(rw http.ResponseWriter, r *http.Request) {
+			rw.Header().Set("X-Backend", label)
+			_, _ = io.WriteString(rw, "ok")
+		})}
+		go func() { _ = bs.Serve(bl) }()
+		return func(string) (net.Conn, error) {
+			atomic.AddInt64(&dials, 1)
+			return net.Dial("tcp", bl.Addr().String())
+		}, func() { _ = bs.Close() }, nil
+	}
+	f1, c1, err := mk("1")
+	if err != nil {
+		return "", "", err
+	}
+	defer c1()
+	f2, c2, err := mk("2")
+	if err != nil {
+		return "", "", err
+	}
+	defer c2()
+	client := &http.Client{Transport: &http.Transport{DisableKeepAlives: true}, Timeout: 10 * time.Second}
+	get := func(path string) (string, error) {
+		req, _ := http.NewRequest("GET", "http://"+front.Addr().String()+path, nil)
+		req.Host = "h.test"
+		resp, err := client.Do(req)
+		if err != nil {
+			return "", err
+		}
+		_, _ = io.Copy(io.Discard, resp.Body)
+		_ = resp.Body.Close()
+		if resp.StatusCode != 200 {
+			return strconv.Itoa(resp.StatusCode), nil
+		}
+		return resp.Header.Get("X-Backend"), nil
+	}
+	tr := vhost.VerifTransport(rp)
+	origDial := tr.DialContext
+	var gateOn int32 = 1
+	atDial := make(chan struct{}, 1)
+	goOn := make(chan struct{}, 1)
+	tr.DialContext = func(ctx context.Context, network, addr string) (net.Conn, error) {
+		if atomic.CompareAndSwapInt32(&gateOn, 1, 0) {
+			atDial <- struct{}{}
+			<-goOn
+		}
+		return origDial(ctx, network, addr)
+	}
+	if err := rp.Register(vhost.RouteConfig{Domain: "h.test", Location: "", CreateConnFn: f1}); err != nil {
+		return "", "", err
+	}
+	type res struct {
+		b   string
+		err error
+	}
+	rch := make(chan res, 1)
+	go func() {
+		b, err := get("/admin/x") // routed to route A = (h.test, ""), the only one
+		rch <- res{b, err}
+	}()
+	select {
+	case <-atDial:
+	case <-time.After(5 * time.Second):
+		return "", "", fmt.Errorf("cross-wire replay: request never reached DialContext")
+	}
+	if err := rp.Register(vhost.RouteConfig{Domain: "h.test", Location: "/admin", CreateConnFn: f2}); err != nil {
+		return "", "", err
+	}
+	goOn <- struct{}{}
+	r1 := <-rch
+	if r1.err != nil {
+		return "", "", r1.err
+	}
+	hh := hx.HxS("h.test")
+	ops := []string{
+		fmt.Sprintf("(HRegister %s [] [] 1, HRegOk)", hh),
+		fmt.Sprintf("(HBeginRaced 1 0 0 %s %s [] true (HRegister %s %s [] 2), HReached %s)", hh, hx.HxS("/admin/x"), hh, hx.HxS("/admin"), r1.b),
+		"(HEnd 1, HDone)",
+	}
+	time.Sleep(3 * time.Millisecond)
+	before := atomic.LoadInt64(&dials)
+	b2, err := get("/public") // only route A matches
+	if err != nil {
+		return "", "", err
+	}
+	ops = append(ops, fmt.Sprintf("(HBegin 2 0 0 %s %s [] %s, HReached %s)", hh, hx.HxS("/public"), hx.Bool(atomic.LoadInt64(&dials) > before), b2),
+		"(HEnd 2, HDone)")
+	verdict := fmt.Sprintf("GET /admin/x (overtaken by Register /admin) -> backend %s; GET /public -> backend %s", r1.b, b2)
+	if b2 != "1" {
+		verdict = "CROSS-WIRED: " + verdict + " although only route (h.test, \"\") -> backend 1 matches /public"
+	}
+	return "CHttp " + hx.List(ops), verdict, nil
+}
+
 func runWindow(cfg *hx.RunCfg) error {
 	g := hx.NewGen(cfg.Seed)
 	rp := vhost.NewHTTPReverseProxy(vhost.HTTPReverseProxyOptions{ResponseHeaderTimeoutS: 20}, vhost.NewRouters())
@@ -202,8 +313,15 @@ func runWindow(cfg *hx.RunCfg) error {
 	}
 	cf.Cases = append(cf.Cases, "CHttp "+hx.List(caseOps))
 	cfg.St["witness_case"] = cf.Cases[0]
-	cfg.St["cases"] = 1
-	cfg.St["distinct_nontrivial"] = 1
+	cw, cwVerdict, err := crossWireReplay()
+	if err != nil {
+		return err
+	}
+	cf.Cases = append(cf.Cases, cw)
+	cfg.St["cross_wire_replay"] = cwVerdict
+	cfg.St["cross_wire_case"] = cw
+	cfg.St["cases"] = 2
+	cfg.St["distinct_nontrivial"] = 2
 	cfg.St["samples"] = []any{cf.Cases[0], fmt.Sprintf("free-running race: attempts=%d in-race-reached=%d hits=%d", attempts, reachedInRace, hits)}
 	cfg.St["distribution"] = map[string]int{"attempts": attempts, "request reached backend of a route registered during the request": reachedInRace, "unrouted request answered by former backend": hits, "404 (registered after the dial)": notFound}
 	cfg.St["window_hits"] = hits
